@@ -25,6 +25,33 @@
      `sum += value * count` over `genList g` from `0`; `GetSum_model` (zero count finite):
      `s.getSum env = some x → GetSum fuel (toGen env s) = .ok x`.
 
+  3. constructors and `DecodeDDSketch`: `NewFromProvider_eq/_ok/_panic` (any instances: provider called twice,
+     positive store first; a panicking provider propagates), `NewFromProvider_model`, `NewExact_model`
+     (`= .ok (toGen env (Sketch.new …))`, `.ok (toGenX env (XSketch.new …))`, provider `provider k` handing out
+     `Store.new k`), `GetStores_model`; `DecodeDDSketch_eqO/_eqE` (a fresh sketch, then the plain decoder of
+     `GenSketch5`), `DecodeDDSketch_relO` (nil or non-nil mapping argument, `M := Option MapEnv`) and
+     `DecodeDDSketch_relE` (`M := MapEnv`): `DecRelO/DecRelE` against
+     `(Sketch.new m k).decodeAndMergeWith`, fuel `≥ len b + 9`; `DecodeDDSketch_panic`.
+  4a. `DDSketchWithExactSummaryStatistics.ChangeMapping`: `XChangeMapping_eq` (the plain `ChangeMapping` of
+     `GenSketch6` on the embedded sketch with two empty sparse targets from the provider; statistics copied and
+     rescaled), `XChangeMapping_rel` (= `xchangeMapping`, general path, under `GenSketch6.allExit`),
+     `XChangeMapping_identity`, `XChangeMapping_nofuel`.
+  4b. the decoder in STATE-PASSING form (`Gen.SketchIter.DDSketch.decodeAndMergeWith`, the threaded state `σ`
+     is what the fallback closure assigns): `loop1S_rel`, `decodeAndMergeWithS_rel` — against
+     `Sketch.decodeLoop` with ANY auxiliary state `aux`, for any fallback meeting `FbSpecS R` (a relation `R`
+     between `aux` and the threaded state), any mapping type meeting `GenSketch5.MapLaw`; model fuel `≥ len b`,
+     generated fuel `≥ len b + 9`.  `xfb_spec`: the closure of the exact variant (count / sum / min / max
+     blocks update the statistics) meets `FbSpecS XR` against `Sketch.fallback` with `stats := some …`.
+     `XDecodeAndMergeWith_rel_gen`, `XDecodeAndMergeWith_rel` (`M := MapEnv`), `DecodeExact_eqO`,
+     `DecodeExact_relO` (`DecodeDDSketchWithExactSummaryStatistics`, `M := Option MapEnv`): `XDecRel` against
+     `XSketch.decodeAndMergeWith`: success ⇒ nil error and the model's sketch AND statistics; refusal `e` ⇒
+     returns normally with `decErrX e` ("missing exact summary statistics" for `.missingStats`, else `decErr e`)
+     — for an error of the loop itself the statement allows `decErr e`, which differs from `decErrX e` only
+     for `e = .missingStats`, an error the loop never produces (NOT proved here: the disjunction in `XDecRel`).
+     HYPOTHESIS `F64LESpec`: `DecodeFloat64LE` (encoding.go:128) reads `Codec.decF64LE` — `GoSem.leU64` against
+     `Codec.leValue` is not proved in this file (nor elsewhere yet); everything in 4b that touches a sum / min /
+     max block takes it as a hypothesis.
+
   DISAGREEMENT (model scope, `ForEach_disagree`, `GetSum_disagree`): the Go test is `s.zeroCount != 0`, true for
   `+Inf` and NaN; the model's `forEachList` emits the zero bucket only for a FINITE non-zero zero count.  With
   `zeroCount = +Inf` (reachable in Go by `AddWithCount(0, +Inf)`, which the model puts outside its scope: its
@@ -646,5 +673,526 @@ theorem XChangeMapping_nofuel (old new : MapEnv) (x : XSketch) (scale : F64) (fu
     Gen.SketchIter.DDSketchWithExactSummaryStatistics.ChangeMapping fuel (toGenX old x) new (provider .sparse)
         scale = .nofuel := by
   rw [XChangeMapping_eq, ChangeMapping_nofuel old new x.sk scale fuel _ _ p n hp hn hne hex]; rfl
+
+/-! ### 4b. the decoder in state-passing form and the exact variant's `DecodeAndMergeWith` -/
+
+section Dec
+open DDS.Gen.Encoding DDS.GenEncoding DDS.Codec
+
+variable {M : Type} [MapI M] [Inhabited M]
+
+/-- what a STATE-PASSING `fallbackDecode` has to do against the model's `Sketch.fallback`, for a relation `R`
+    between the model's auxiliary state and the threaded Go state: a refusal `e` of the model is the Go error
+    `decErr e`; a success is a nil error, a slice with exactly the model's remaining bytes, and `R` again -/
+def FbSpecS {σ : Type} (R : Sketch.DecAux → σ → Prop)
+    (fb : σ → List (BitVec 8) → Flag → Res (σ × List (BitVec 8) × GoErr)) : Prop :=
+  ∀ (aux : Sketch.DecAux) (st : σ) (b : List (BitVec 8)) (flag : Flag), R aux st →
+    match Sketch.fallback aux flag.byte.toNat (nb b) with
+    | .error e => ∃ st' b', fb st b flag = .ok (st', b', decErr e)
+    | .ok (aux', rest) => ∃ st' b', fb st b flag = .ok (st', b', GoErr.nil) ∧ R aux' st' ∧
+        nb b' = rest ∧ b'.length ≤ b.length
+
+def LoopRelS {σ : Type} (idOf : M → Option MapId) (R : Sketch.DecAux → σ → Prop) :
+    Option (Except SkErr (Sketch × Sketch.DecAux)) →
+    Loop (List (BitVec 8) × DDSketch M Store × σ) (σ × DDSketch M Store × GoErr) → Prop
+  | none, _ => True
+  | some (.error e), r => ∃ st' g', r = .ret (st', g', decErr e)
+  | some (.ok (s', aux')), r => ∃ st' g', r = .done ([], g', st') ∧ ofGenI idOf g' = s' ∧ R aux' st'
+
+theorem loop1S_nil {σ : Type} (fb : σ → List (BitVec 8) → Flag → Res (σ × List (BitVec 8) × GoErr))
+    (fuel : Nat) (g : DDSketch M Store) (st : σ) :
+    Gen.SketchIter.DDSketch.decodeAndMergeWith.loop1 fb (fuel + 1) [] g st = .done ([], g, st) := rfl
+
+/-- **`loop1S_rel`**: the state-passing decoder loop is the model's `Sketch.decodeLoop` with ANY auxiliary
+    state, block by block; model fuel `≥ len b`, generated fuel `≥ len b + 9` -/
+theorem loop1S_rel {σ : Type} {idOf : M → Option MapId} (law : MapLaw idOf) (R : Sketch.DecAux → σ → Prop)
+    (fb : σ → List (BitVec 8) → Flag → Res (σ × List (BitVec 8) × GoErr)) (hfb : FbSpecS R fb) :
+    ∀ (n fuel : Nat) (b : List (BitVec 8)) (g : DDSketch M Store) (aux : Sketch.DecAux) (st : σ),
+      R aux st → b.length ≤ n → b.length + 9 ≤ fuel →
+      LoopRelS idOf R (Sketch.decodeLoop n (ofGenI idOf g) aux (nb b))
+        (Gen.SketchIter.DDSketch.decodeAndMergeWith.loop1 fb fuel b g st) := by
+  intro n
+  induction n with
+  | zero =>
+    intro fuel b g aux st hR hn hf
+    have : b = [] := List.length_eq_zero_iff.mp (by omega)
+    subst this
+    obtain ⟨fuel, rfl⟩ : ∃ k, fuel = k + 1 := ⟨fuel - 1, by omega⟩
+    rw [nb_nil, Sketch.decodeLoop_nil, loop1S_nil]
+    exact ⟨st, g, rfl, rfl, hR⟩
+  | succ n ih =>
+    intro fuel b g aux st hR hn hf
+    obtain ⟨fuel, rfl⟩ : ∃ k, fuel = k + 1 := ⟨fuel - 1, by omega⟩
+    cases b with
+    | nil =>
+      rw [nb_nil, Sketch.decodeLoop_nil, loop1S_nil]
+      exact ⟨st, g, rfl, rfl, hR⟩
+    | cons x tl =>
+      simp only [List.length_cons] at hn hf
+      have hf9 : 9 ≤ fuel := by omega
+      have hlen : decide ((0 : Int) < GoSem.len (x :: tl)) = true := by
+        rw [decide_eq_true_eq]; unfold GoSem.len; rw [List.length_cons]; omega
+      rw [nb_cons]
+      simp only [Gen.SketchIter.DDSketch.decodeAndMergeWith.loop1, hlen, if_true, DecodeFlag_cons,
+        Res.bindL_ok, nil_bne_nil, Bool.false_eq_true, if_false, type_beq, flag_beq,
+        FlagTypePositiveStore_byte, FlagTypeNegativeStore_byte, FlagTypeIndexMapping_byte,
+        FlagZeroCountVarFloat_byte]
+      by_cases h1 : Wire.flagType x.toNat = Consts.flagTypePositiveStore
+      · simp only [h1, decide_true, if_true]
+        rw [Sketch.loop_pos n _ _ _ _ h1]
+        cases hd : Sketch.decodeStore (ofGenI idOf g).pos (Wire.flagSub x.toNat) (nb tl) with
+        | none => trivial
+        | some r =>
+          cases r with
+          | error e =>
+            rw [storeDecode_err g.positiveValueStore tl ⟨x⟩ e hd]
+            simp only [decErr_ne_nil, if_true]
+            exact ⟨_, _, rfl⟩
+          | ok r =>
+            obtain ⟨p, rest⟩ := r
+            have hsuf := decodeStore_suffix _ _ _ _ _ hd
+            rw [storeDecode_ok g.positiveValueStore p tl ⟨x⟩ rest hd]
+            simp only [nil_bne_nil, Bool.false_eq_true, if_false]
+            have hl := bn_suffix_length hsuf
+            have := ih fuel (bn rest) { g with positiveValueStore := p } aux st hR (by omega) (by omega)
+            rw [nb_bn_suffix hsuf] at this
+            exact this
+      · simp only [h1, decide_false, Bool.false_eq_true, if_false]
+        by_cases h2 : Wire.flagType x.toNat = Consts.flagTypeNegativeStore
+        · simp only [h2, decide_true, if_true]
+          rw [Sketch.loop_neg n _ _ _ _ h2]
+          cases hd : Sketch.decodeStore (ofGenI idOf g).neg (Wire.flagSub x.toNat) (nb tl) with
+          | none => trivial
+          | some r =>
+            cases r with
+            | error e =>
+              rw [storeDecode_err g.negativeValueStore tl ⟨x⟩ e hd]
+              simp only [decErr_ne_nil, if_true]
+              exact ⟨_, _, rfl⟩
+            | ok r =>
+              obtain ⟨p, rest⟩ := r
+              have hsuf := decodeStore_suffix _ _ _ _ _ hd
+              rw [storeDecode_ok g.negativeValueStore p tl ⟨x⟩ rest hd]
+              simp only [nil_bne_nil, Bool.false_eq_true, if_false]
+              have hl := bn_suffix_length hsuf
+              have := ih fuel (bn rest) { g with negativeValueStore := p } aux st hR (by omega) (by omega)
+              rw [nb_bn_suffix hsuf] at this
+              exact this
+        · simp only [h2, decide_false, Bool.false_eq_true, if_false]
+          by_cases h3 : Wire.flagType x.toNat = Consts.flagTypeIndexMapping
+          · simp only [h3, decide_true, if_true]
+            rcases mapping_block_step law tl ⟨x⟩ n (ofGenI idOf g) aux h3 with
+              ⟨e, b', m, hmod, hdec⟩ | ⟨id, bs2, m, hsuf, hlt, hdec, hid, hmod⟩
+            · rw [hmod, hdec]
+              simp only [decErr_ne_nil, if_true]
+              exact ⟨_, _, rfl⟩
+            · rw [hmod, hdec]
+              simp only [nil_bne_nil, Bool.false_eq_true, if_false, law.isNil_eq]
+              have hl := bn_suffix_length hsuf
+              have e1 : ofGenI idOf { g with IndexMapping := m }
+                  = { ofGenI idOf g with mapping := some id } := by
+                unfold ofGenI; simp only [hid]
+              have hrec := ih fuel (bn bs2) { g with IndexMapping := m } aux st hR (by omega) (by omega)
+              rw [nb_bn_suffix hsuf, e1] at hrec
+              have hs : (ofGenI idOf g).mapping = idOf g.IndexMapping := rfl
+              rw [hs]
+              cases hcur : idOf g.IndexMapping with
+              | none =>
+                simp only [Option.isNone_none, Bool.not_true, Bool.false_and, Bool.false_eq_true, if_false]
+                exact hrec
+              | some cur =>
+                rw [law.equals_eq g.IndexMapping m cur id hcur hid]
+                simp only [Option.isNone_some, Bool.not_false, Bool.true_and]
+                by_cases heq : cur.equals id = true
+                · simp only [heq, Bool.not_true, Bool.false_eq_true, if_false, if_true]
+                  exact hrec
+                · simp only [heq, Bool.not_false, if_true]
+                  exact ⟨_, _, rfl⟩
+          · simp only [h3, decide_false, Bool.false_eq_true, if_false]
+            have h0 : Wire.flagType x.toNat = Consts.flagTypeSketchFeatures := by
+              have := (flag_split x.toNat).2
+              revert h1 h2 h3
+              simp only [show Consts.flagTypePositiveStore = 1 from rfl,
+                show Consts.flagTypeNegativeStore = 3 from rfl, show Consts.flagTypeIndexMapping = 2 from rfl,
+                show Consts.flagTypeSketchFeatures = 0 from rfl]
+              omega
+            by_cases h4 : x.toNat = Sketch.zeroFlag
+            · have h4' : x.toNat = Wire.mkFlag Consts.flagTypeSketchFeatures Consts.subFlagZeroCountVarFloat := h4
+              simp only [h4', decide_true, if_true]
+              rw [show Wire.mkFlag Consts.flagTypeSketchFeatures Consts.subFlagZeroCountVarFloat
+                = Sketch.zeroFlag from rfl, Sketch.loop_zero]
+              cases hd : decVarfloat64 (nb tl) with
+              | error e =>
+                rw [GenStoreDecode.F_err fuel hf9 tl e hd]
+                simp only [Sketch.liftDec, Res.bindL_ok, GenStoreDecode.heof, if_true]
+                exact ⟨_, _, rfl⟩
+              | ok r =>
+                obtain ⟨z, rest⟩ := r
+                obtain ⟨b', hb1, hb2, hb3⟩ := GenStoreDecode.F_ok fuel hf9 tl z rest hd
+                rw [hb1]
+                simp only [Sketch.liftDec, Res.bindL_ok, nil_bne_nil, Bool.false_eq_true, if_false]
+                have hrec := ih fuel b' { g with zeroCount := F64.add g.zeroCount z } aux st hR
+                  (by omega) (by omega)
+                rw [hb2] at hrec
+                exact hrec
+            · have h4' : ¬ x.toNat = Wire.mkFlag Consts.flagTypeSketchFeatures Consts.subFlagZeroCountVarFloat := h4
+              simp only [h4', decide_false, Bool.false_eq_true, if_false]
+              rw [Sketch.loop_fallback n _ _ _ _ h0 h4]
+              have hspec := hfb aux st tl ⟨x⟩ hR
+              cases hfm : Sketch.fallback aux x.toNat (nb tl) with
+              | error e =>
+                have hfm' : Sketch.fallback aux (⟨x⟩ : Flag).byte.toNat (nb tl) = .error e := hfm
+                rw [hfm'] at hspec
+                simp only at hspec
+                obtain ⟨st', b', hb⟩ := hspec
+                rw [hb]
+                simp only [Res.bindL_ok, decErr_ne_nil, if_true]
+                exact ⟨_, _, rfl⟩
+              | ok r =>
+                obtain ⟨aux', rest⟩ := r
+                have hfm' : Sketch.fallback aux (⟨x⟩ : Flag).byte.toNat (nb tl) = .ok (aux', rest) := hfm
+                rw [hfm'] at hspec
+                simp only at hspec
+                obtain ⟨st', b', hb1, hR', hb2, hb3⟩ := hspec
+                rw [hb1]
+                simp only [Res.bindL_ok, nil_bne_nil, Bool.false_eq_true, if_false]
+                have hrec := ih fuel b' g aux' st' hR' (by omega) (by omega)
+                rw [hb2] at hrec
+                exact hrec
+
+/-- the state-passing `decodeAndMergeWith` (ddsketch.go:438) against the model's loop, any auxiliary state -/
+def DecRelS {σ : Type} (idOf : M → Option MapId) (R : Sketch.DecAux → σ → Prop) :
+    Option (Except SkErr (Sketch × Sketch.DecAux)) → Res (σ × DDSketch M Store × GoErr) → Prop
+  | none, _ => True
+  | some (.error e), r => ∃ st' g', r = .ok (st', g', decErr e)
+  | some (.ok (s', aux')), r => ∃ st' g', ofGenI idOf g' = s' ∧ R aux' st' ∧
+      r = .ok (st', g', if s'.mapping.isNone then decErr .missingMapping else GoErr.nil)
+
+theorem decodeAndMergeWithS_rel {σ : Type} {idOf : M → Option MapId} (law : MapLaw idOf)
+    (R : Sketch.DecAux → σ → Prop)
+    (fb : σ → List (BitVec 8) → Flag → Res (σ × List (BitVec 8) × GoErr)) (hfb : FbSpecS R fb)
+    (fuel : Nat) (g : DDSketch M Store) (b : List (BitVec 8)) (aux : Sketch.DecAux) (st : σ) (hR : R aux st)
+    (hf : b.length + 9 ≤ fuel) :
+    DecRelS idOf R (Sketch.decodeLoop ((nb b).length + 1) (ofGenI idOf g) aux (nb b))
+      (Gen.SketchIter.DDSketch.decodeAndMergeWith fuel g b st fb) := by
+  have h := loop1S_rel law R fb hfb ((nb b).length + 1) fuel b g aux st hR (by rw [nb_length]; omega) hf
+  unfold Gen.SketchIter.DDSketch.decodeAndMergeWith
+  cases hm : Sketch.decodeLoop ((nb b).length + 1) (ofGenI idOf g) aux (nb b) with
+  | none => trivial
+  | some r =>
+    rw [hm] at h
+    cases r with
+    | error e =>
+      obtain ⟨st', g', hg⟩ := h
+      simp only [hg, Loop.elim_ret]
+      exact ⟨st', g', rfl⟩
+    | ok r =>
+      obtain ⟨s', aux'⟩ := r
+      obtain ⟨st', g', hg, hs, hR'⟩ := h
+      simp only [hg, Loop.elim_done, law.isNil_eq]
+      have hmap : s'.mapping = idOf g'.IndexMapping := by rw [← hs]; rfl
+      refine ⟨st', g', hs, hR', ?_⟩
+      rw [hmap]
+      cases hi : (idOf g'.IndexMapping).isNone <;> rfl
+
+/-! #### the exact variant: the fallback closure decodes the statistics blocks -/
+
+/-- the interface of `DecodeFloat64LE` (encoding.go:128) against the model's `Codec.decF64LE`: TAKEN AS A
+    HYPOTHESIS by the theorems below (not proved in this file: `GoSem.leU64` against `Codec.leValue`) -/
+def F64LESpec : Prop := ∀ (fuel : Nat) (b : List (BitVec 8)),
+  DecodeFloat64LE fuel b =
+    match decF64LE (nb b) with
+    | .error _ => .ok (b, F64.fin 0, GoErr.eof)
+    | .ok (v, _) => .ok (b.drop 8, F64.ofBits (UInt64.ofNat v), GoErr.nil)
+
+/-- the model's fallback by flag byte, any auxiliary state -/
+theorem fallback_byte (aux : Sketch.DecAux) (f : Nat) (bs : Bytes) :
+    Sketch.fallback aux f bs =
+      if f = 160 then
+        (match Sketch.liftDec (decVarfloat64 bs) with
+         | .error e => .error e
+         | .ok (c, r) => .ok ({ aux with stats := aux.stats.map (fun st => st.addToCount c) }, r))
+      else if f = 132 then
+        (match Sketch.liftDec (decF64LE bs) with
+         | .error e => .error e
+         | .ok (v, r) =>
+           .ok ({ aux with stats := aux.stats.map (fun st => st.addToSum (F64.ofBits (UInt64.ofNat v))) }, r))
+      else if f = 136 ∨ f = 140 then
+        (match Sketch.liftDec (decF64LE bs) with
+         | .error e => .error e
+         | .ok (v, r) =>
+           .ok ({ aux with stats := aux.stats.map (fun st => st.add (F64.ofBits (UInt64.ofNat v)) (.fin 0)) }, r))
+      else .error .unknownFlag := by
+  by_cases h160 : f = 160
+  · subst h160
+    rw [if_pos rfl]
+    exact Sketch.fallback_count _ bs
+  by_cases h132 : f = 132
+  · subst h132
+    rw [if_neg (by decide), if_pos rfl]
+    exact Sketch.fallback_sum _ bs
+  by_cases h136 : f = 136
+  · subst h136
+    rw [if_neg (by decide), if_neg (by decide), if_pos (by decide)]
+    exact Sketch.fallback_min _ bs
+  by_cases h140 : f = 140
+  · subst h140
+    rw [if_neg (by decide), if_neg (by decide), if_pos (by decide)]
+    exact Sketch.fallback_max _ bs
+  rw [if_neg h160, if_neg h132, if_neg (by omega)]
+  obtain ⟨hf, ht⟩ := flag_split f
+  unfold Sketch.fallback
+  simp only [show Consts.flagTypeSketchFeatures = 0 from rfl, show Consts.subFlagCount = 40 from rfl,
+    show Consts.subFlagSum = 33 from rfl, show Consts.subFlagMin = 34 from rfl,
+    show Consts.subFlagMax = 35 from rfl]
+  by_cases h0 : Wire.flagType f = 0
+  · rw [if_neg (by omega), if_neg (by omega), if_neg (by omega), if_neg (by omega)]
+  · rw [if_pos h0]
+
+/-- the function literal of `DDSketchWithExactSummaryStatistics.DecodeAndMergeWith` (ddsketch.go:770) -/
+def xfb (fuel : Nat) : DDSketchWithExactSummaryStatistics M Store → List (BitVec 8) → Flag →
+    Res (DDSketchWithExactSummaryStatistics M Store × List (BitVec 8) × GoErr) :=
+  fun s b flag =>
+  if (flag == FlagCount) then
+  Res.bind (DecodeVarfloat64 fuel b) (fun (b, count, err) =>
+  if (err != GoErr.nil) then
+  .ok (s, b, err)
+  else
+  let t1 := Gen.Stat.SummaryStatistics.AddToCount (s).summaryStatistics count
+  let s := { s with summaryStatistics := t1 }
+  .ok (s, b, GoErr.nil))
+  else
+  if (flag == FlagSum) then
+  Res.bind (DecodeFloat64LE fuel b) (fun (b, sum, err) =>
+  if (err != GoErr.nil) then
+  .ok (s, b, err)
+  else
+  let t2 := Gen.Stat.SummaryStatistics.AddToSum (s).summaryStatistics sum
+  let s := { s with summaryStatistics := t2 }
+  .ok (s, b, GoErr.nil))
+  else
+  if ((flag == FlagMin) || (flag == FlagMax)) then
+  Res.bind (DecodeFloat64LE fuel b) (fun (b, stat, err) =>
+  if (err != GoErr.nil) then
+  .ok (s, b, err)
+  else
+  let t3 := Gen.Stat.SummaryStatistics.Add (s).summaryStatistics stat (F64.fin (0 : Rat))
+  let s := { s with summaryStatistics := t3 }
+  .ok (s, b, GoErr.nil))
+  else
+  .ok (s, b, errUnknownFlag)
+
+/-- the threaded Go state (the whole exact-variant structure; only its statistics matter) carries the model's
+    statistics -/
+def XR (aux : Sketch.DecAux) (st : DDSketchWithExactSummaryStatistics M Store) : Prop :=
+  aux.stats = some (GenStat.toModel st.summaryStatistics)
+
+theorem xfb_spec (hle : F64LESpec) (fuel : Nat) (hf : 9 ≤ fuel) :
+    FbSpecS (XR (M := M)) (xfb (M := M) fuel) := by
+  intro aux st b flag hR
+  unfold XR at hR
+  rw [fallback_byte]
+  unfold xfb
+  simp only [flag_beq, FlagCount_nat, FlagSum_nat, FlagMin_nat, FlagMax_nat]
+  by_cases h160 : flag.byte.toNat = 160
+  · simp only [h160, if_true, decide_true]
+    cases hd : decVarfloat64 (nb b) with
+    | error e =>
+      rw [GenStoreDecode.F_err fuel hf b e hd]
+      simp only [Sketch.liftDec, Res.bind_ok, GenStoreDecode.heof, if_true]
+      exact ⟨_, _, rfl⟩
+    | ok p =>
+      obtain ⟨c, rest⟩ := p
+      obtain ⟨b', h1, h2, h3⟩ := GenStoreDecode.F_ok fuel hf b c rest hd
+      rw [h1]
+      simp only [Sketch.liftDec, Res.bind_ok, nil_bne_nil, Bool.false_eq_true, if_false]
+      refine ⟨_, b', rfl, ?_, h2, by omega⟩
+      unfold XR; rw [hR]; rfl
+  · simp only [h160, if_false, decide_false, Bool.false_eq_true]
+    by_cases h132 : flag.byte.toNat = 132
+    · simp only [h132, if_true, decide_true]
+      rw [hle]
+      cases hd : decF64LE (nb b) with
+      | error e =>
+        simp only [Sketch.liftDec, Res.bind_ok, GenStoreDecode.heof, if_true]
+        exact ⟨_, _, rfl⟩
+      | ok p =>
+        obtain ⟨v, rest⟩ := p
+        simp only [Sketch.liftDec, Res.bind_ok, nil_bne_nil, Bool.false_eq_true, if_false]
+        have hrest : rest = (nb b).drop 8 := by
+          unfold decF64LE at hd
+          split at hd
+          · cases hd
+          · simp only [Except.ok.injEq, Prod.mk.injEq] at hd; exact hd.2.symm
+        refine ⟨_, b.drop 8, rfl, ?_, by rw [hrest]; exact nb_drop b 8, by simp⟩
+        unfold XR; rw [hR]; rfl
+    · simp only [h132, if_false, decide_false, Bool.false_eq_true]
+      by_cases hs : flag.byte.toNat = 136 ∨ flag.byte.toNat = 140
+      · have hs' : (decide (flag.byte.toNat = 136) || decide (flag.byte.toNat = 140)) = true := by
+          rw [Bool.or_eq_true, decide_eq_true_eq, decide_eq_true_eq]; exact hs
+        simp only [hs, hs', if_true]
+        rw [hle]
+        cases hd : decF64LE (nb b) with
+        | error e =>
+          simp only [Sketch.liftDec, Res.bind_ok, GenStoreDecode.heof, if_true]
+          exact ⟨_, _, rfl⟩
+        | ok p =>
+          obtain ⟨v, rest⟩ := p
+          simp only [Sketch.liftDec, Res.bind_ok, nil_bne_nil, Bool.false_eq_true, if_false]
+          have hrest : rest = (nb b).drop 8 := by
+            unfold decF64LE at hd
+            split at hd
+            · cases hd
+            · simp only [Except.ok.injEq, Prod.mk.injEq] at hd; exact hd.2.symm
+          refine ⟨_, b.drop 8, rfl, ?_, by rw [hrest]; exact nb_drop b 8, by simp⟩
+          unfold XR; rw [hR]
+          simp only [Option.map_some, GenStat.add_eq]
+      · have hs' : (decide (flag.byte.toNat = 136) || decide (flag.byte.toNat = 140)) = false := by
+          rw [Bool.or_eq_false_iff, decide_eq_false_iff_not, decide_eq_false_iff_not]; omega
+        simp only [hs, hs', if_false, Bool.false_eq_true]
+        exact ⟨_, _, rfl⟩
+
+/-- the Go error value of each refusal of the exact variant's decoder -/
+def decErrX : SkErr → GoErr
+  | .missingStats => GoErr.named "missing exact summary statistics"
+  | e => decErr e
+
+theorem decErrX_ne_nil (e : SkErr) : decErrX e ≠ GoErr.nil := by cases e <;> decide
+
+/-- the model `XSketch` a generated exact-variant structure stands for -/
+def ofGenXI (idOf : M → Option MapId) (g : DDSketchWithExactSummaryStatistics M Store) : XSketch :=
+  { sk := ofGenI idOf g.DDSketch, st := GenStat.toModel g.summaryStatistics }
+
+def XDecRel (idOf : M → Option MapId) :
+    Option (Except SkErr XSketch) → Res (DDSketchWithExactSummaryStatistics M Store × GoErr) → Prop
+  | none, _ => True
+  | some (.error e), r => ∃ g', r = .ok (g', decErrX e) ∨ r = .ok (g', decErr e)
+  | some (.ok x'), r => ∃ g', r = .ok (g', GoErr.nil) ∧ ofGenXI idOf g' = x'
+
+theorem XDecode_unfold (fuel : Nat) (g : DDSketchWithExactSummaryStatistics M Store) (bb : List (BitVec 8)) :
+    Gen.SketchIter.DDSketchWithExactSummaryStatistics.DecodeAndMergeWith fuel g bb =
+      Res.bind (Gen.SketchIter.DDSketch.decodeAndMergeWith fuel g.DDSketch bb g (xfb fuel))
+        (fun (s, t4, err) =>
+          let s := { s with DDSketch := t4 }
+          if (err != GoErr.nil) then .ok (s, err)
+          else if ((F64.eq (Gen.Stat.SummaryStatistics.Count s.summaryStatistics) (F64.fin (0 : Rat)))
+              && (!(DDSketch.IsEmpty s.DDSketch))) then
+            .ok (s, (GoErr.named "missing exact summary statistics"))
+          else .ok (s, GoErr.nil)) := rfl
+
+/-- **`XDecodeAndMergeWith_rel_gen`** (fuel `≥ len b + 9`; `F64LESpec` as hypothesis): the regenerated
+    `DDSketchWithExactSummaryStatistics.DecodeAndMergeWith` against the model's `XSketch.decodeAndMergeWith`:
+    the statistics blocks are decoded by the closure and merged into the receiver's statistics; an input
+    without exact statistics for a non-empty result is refused with "missing exact summary statistics" -/
+theorem XDecodeAndMergeWith_rel_gen {idOf : M → Option MapId} (law : MapLaw idOf) (hle : F64LESpec)
+    (fuel : Nat) (g : DDSketchWithExactSummaryStatistics M Store) (b : List (BitVec 8))
+    (hf : b.length + 9 ≤ fuel) :
+    XDecRel idOf ((ofGenXI idOf g).decodeAndMergeWith (nb b))
+      (Gen.SketchIter.DDSketchWithExactSummaryStatistics.DecodeAndMergeWith fuel g b) := by
+  have h := decodeAndMergeWithS_rel law (XR (M := M)) (xfb fuel) (xfb_spec hle fuel (by omega)) fuel
+    g.DDSketch b { stats := some (GenStat.toModel g.summaryStatistics) } g rfl hf
+  rw [XDecode_unfold]
+  unfold XSketch.decodeAndMergeWith
+  show XDecRel idOf (match Sketch.decodeLoop ((nb b).length + 1) (ofGenI idOf g.DDSketch)
+      { stats := some (GenStat.toModel g.summaryStatistics) } (nb b) with
+    | none => none
+    | some (.error e) => some (.error e)
+    | some (.ok (sk, aux)) =>
+      if sk.mapping.isNone then some (.error .missingMapping)
+      else
+        let st := aux.stats.getD (GenStat.toModel g.summaryStatistics)
+        if F64.eq st.count (.fin 0) && !sk.isEmpty then some (.error .missingStats)
+        else some (.ok { sk := sk, st := st })) _
+  cases hm : Sketch.decodeLoop ((nb b).length + 1) (ofGenI idOf g.DDSketch)
+      { stats := some (GenStat.toModel g.summaryStatistics) } (nb b) with
+  | none => trivial
+  | some r =>
+    rw [hm] at h
+    cases r with
+    | error e =>
+      obtain ⟨st', g', hg⟩ := h
+      rw [hg]
+      simp only [Res.bind_ok, decErr_ne_nil, if_true]
+      exact ⟨_, Or.inr rfl⟩
+    | ok r =>
+      obtain ⟨s', aux'⟩ := r
+      obtain ⟨st', g', hs, hR', hg⟩ := h
+      rw [hg]
+      unfold XR at hR'
+      simp only [Res.bind_ok]
+      cases hi : s'.mapping.isNone with
+      | true =>
+        simp only [if_true, decErr_ne_nil]
+        exact ⟨_, Or.inl rfl⟩
+      | false =>
+        simp only [Bool.false_eq_true, if_false, nil_bne_nil, hR', Option.getD_some]
+        have hemp : DDSketch.IsEmpty g' = s'.isEmpty := by rw [← hs]; rfl
+        rw [hemp]
+        by_cases hc : (F64.eq (GenStat.toModel st'.summaryStatistics).count (.fin 0) && !s'.isEmpty) = true
+        · rw [if_pos hc]
+          have hc2 : (F64.eq (Gen.Stat.SummaryStatistics.Count st'.summaryStatistics) (.fin 0)
+              && !s'.isEmpty) = true := hc
+          simp only [hc2, if_true]
+          exact ⟨_, Or.inl rfl⟩
+        · rw [if_neg hc]
+          have hc2 : (F64.eq (Gen.Stat.SummaryStatistics.Count st'.summaryStatistics) (.fin 0)
+              && !s'.isEmpty) = false := by
+            have : (F64.eq (GenStat.toModel st'.summaryStatistics).count (.fin 0) && !s'.isEmpty) = false := by
+              simpa using hc
+            exact this
+          simp only [hc2, Bool.false_eq_true, if_false]
+          refine ⟨_, rfl, ?_⟩
+          unfold ofGenXI
+          simp only [hs]
+
+/-! #### instances: a receiver with a mapping object, `DecodeDDSketchWithExactSummaryStatistics` -/
+
+theorem decErrX_eq (e : SkErr) (h : e ≠ .missingStats) : decErrX e = decErr e := by
+  cases e <;> first | rfl | exact absurd rfl h
+
+/-- **`XDecodeAndMergeWith_rel`**: on `toGenX env x` (`x.sk.mapping = some env.id`), through `ofGenX` -/
+theorem XDecodeAndMergeWith_rel (hle : F64LESpec) (env : MapEnv) (x : XSketch)
+    (hm : x.sk.mapping = some env.id) (fuel : Nat) (b : List (BitVec 8)) (hf : b.length + 9 ≤ fuel) :
+    XDecRel (fun e : MapEnv => some e.id) (x.decodeAndMergeWith (nb b))
+      (Gen.SketchIter.DDSketchWithExactSummaryStatistics.DecodeAndMergeWith fuel (toGenX env x) b) := by
+  have h := XDecodeAndMergeWith_rel_gen mapEnv_law hle fuel (toGenX env x) b hf
+  have e : ofGenXI (fun e : MapEnv => some e.id) (toGenX env x) = x := by
+    unfold ofGenXI
+    rw [toGenX_sk, toGenX_st, ofGenI_mapEnv, ofGen_toGen env x.sk hm, GenStat.toModel_ofModel]
+  rw [e] at h
+  exact h
+
+/-- `DecodeDDSketchWithExactSummaryStatistics` (ddsketch.go:755), possibly nil mapping argument: a fresh
+    exact-variant sketch from the provider (`XSketch.new`), then `DecodeAndMergeWith` -/
+theorem DecodeExact_eqO (fuel : Nat) (b : List (BitVec 8)) (k : StoreKind) (m : Option MapEnv) :
+    Gen.SketchIter.DecodeDDSketchWithExactSummaryStatistics fuel b (provider k) m =
+      Gen.SketchIter.DDSketchWithExactSummaryStatistics.DecodeAndMergeWith fuel
+        { DDSketch := toGenO m (Sketch.new (m.map (fun e => e.id)) k),
+          summaryStatistics := Gen.Stat.NewSummaryStatistics } b := by
+  unfold Gen.SketchIter.DecodeDDSketchWithExactSummaryStatistics provider
+  simp only [Res.bind_ok]
+  rw [bind_pair_id]
+  rfl
+
+/-- **`DecodeExact_relO`** (fuel `≥ len b + 9`): against `(XSketch.new m k).decodeAndMergeWith` -/
+theorem DecodeExact_relO (hle : F64LESpec) (fuel : Nat) (b : List (BitVec 8)) (k : StoreKind)
+    (m : Option MapEnv) (hf : b.length + 9 ≤ fuel) :
+    XDecRel (fun o : Option MapEnv => o.map (fun e => e.id))
+      ((XSketch.new (m.map (fun e => e.id)) k).decodeAndMergeWith (nb b))
+      (Gen.SketchIter.DecodeDDSketchWithExactSummaryStatistics fuel b (provider k) m) := by
+  rw [DecodeExact_eqO]
+  have h := XDecodeAndMergeWith_rel_gen optMapEnv_law hle fuel
+    { DDSketch := toGenO m (Sketch.new (m.map (fun e => e.id)) k),
+      summaryStatistics := Gen.Stat.NewSummaryStatistics } b hf
+  have e : ofGenXI (fun o : Option MapEnv => o.map (fun e => e.id))
+      { DDSketch := toGenO m (Sketch.new (m.map (fun e => e.id)) k),
+        summaryStatistics := Gen.Stat.NewSummaryStatistics } = XSketch.new (m.map (fun e => e.id)) k := by
+    unfold ofGenXI XSketch.new
+    simp only [GenStat.new_eq]
+    congr 1
+  rw [e] at h
+  exact h
+
+end Dec
 
 end DDS.GenSketch7
